@@ -8,7 +8,8 @@ Sensor.collectObservations / attemptObservation and the Observation / MissedObse
 Task / DetectedManeuver / SequentialFilterStep constructors, DataInterface._getSessionScope / insertData / bulkSave.
 
 The start instant, the step index at which the run starts, the pre-inserted span, the requested durations, the environment's
-outcomes (slew / field of view / visibility / maneuver detected / session failures) and all state vectors are solver variables.
+outcomes (slew / field of view / visibility / maneuver detected / session failures: the mix of row types in the list, the failing row, the
+failing commit) and all state vectors are solver variables.
 Everything the scenario hands to the database crosses a recording stub; the oracle is stated over those calls only.
 """
 from __future__ import annotations
@@ -40,7 +41,8 @@ TECHNIQUE = ("the real ScenarioClock.__init__, Scenario.__init__/propagateTo/ste
              "step index, pre-inserted span, requested durations and solver-chosen environment outcomes; every object handed to the database is captured by a recording stub whose "
              "Epoch lookup evaluates the where-clause of the real Query; z3 decides on every path that the epochs are unique/increasing, that every row written at step k carries "
              "the same double as the Epoch row of step k, that each output holds exactly one row per agent/estimate/task pair and every transient row exactly once, and that a "
-             "step is handed over in one bulkSave; DataInterface's session scope is explored over solver-chosen failure points")
+             "step is handed over in one bulkSave; DataInterface.insertData/bulkSave/_getSessionScope are explored on a list whose row types (a mix of up to three tables), failing row, "
+             "failure kind and failing commit are solver variables: after the call a store behind the session factory holds all rows of the list or none")
 FLOAT_SEMANTICS = ("IEEE-754 double: relaxed encoding (sound over-approximation) for proofs; candidates are replayed bit-for-bit on the real classes and re-drawn when the relaxed "
                    "rounding does not occur on real doubles; exact round-to-nearest-even encoding for the imported-state round trip")
 ENCODED = ["resonaate.scenario.clock:ScenarioClock.__init__", "resonaate.scenario.clock:ScenarioClock.ticToc", "resonaate.scenario.clock:ScenarioClock.julian_date_epoch",
@@ -1340,40 +1342,113 @@ def o_init(rep, dt, out, cfg, policy, max_epochs, calls):
 # ------------------------------------------------------------------------------------------------------------------
 # O2 (transaction level): DataInterface._getSessionScope / insertData / bulkSave on a stub session with solver-chosen failure points
 # ------------------------------------------------------------------------------------------------------------------
-def _session_run(op, choose):
-    """One call of insertData / bulkSave on a real DataInterface whose session factory yields a recording session."""
+SESSION_TYPES = ("TruthEphemeris", "DetectedManeuver", "Task")  # three of the row types one output step hands over together
+SESSION_ROWS = {"quick": 3, "thorough": 4}
+SESSION_CLASSES = ("success", "operation-sqlalchemy-error", "operation-foreign-exception", "commit-error")
+
+
+def _session_rows(types, poison=None):
+    """Real mapped rows of one output step, row i of type SESSION_TYPES[types[i]].  `poison` (SQLite twin of the replay only): index of the row that cannot be
+    stored - its Julian date is NaN, which SQLite binds as NULL into a NOT NULL column (IntegrityError, a SQLAlchemyError, raised by the write of that row)."""
+    from resonaate.data.detected_maneuver import DetectedManeuver
+    from resonaate.data.ephemeris import TruthEphemeris
+    from resonaate.data.task import Task
+
+    rows = []
+    for i, t in enumerate(types):
+        jd = float("nan") if i == poison else 2459304.5
+        if SESSION_TYPES[t] == "TruthEphemeris":
+            rows.append(TruthEphemeris(julian_date=jd, agent_id=11 + i, pos_x_km=7000.0 + i, pos_y_km=1.0, pos_z_km=2.0, vel_x_km_p_sec=0.0, vel_y_km_p_sec=7.5, vel_z_km_p_sec=0.0))
+        elif SESSION_TYPES[t] == "DetectedManeuver":
+            rows.append(DetectedManeuver(julian_date=jd, sensor_ids="21", target_id=11 + i, nis=1.5, method="standard_nis", metric=3.0, threshold=0.5))
+        else:
+            rows.append(Task(julian_date=jd, sensor_id=21, target_id=11 + i, visibility=True, reward=1.0 + i, decision=True))
+    return rows
+
+
+class _SymChoice:
+    """the environment of one call, chosen by the solver (explore() forks over the values)"""
+
+    def bool(self, name):
+        return bool(boolean("ch_" + name))
+
+    def int(self, name, lo, hi):
+        v = integer("ch_" + name)
+        assume(v.t >= lo, v.t <= hi)
+        for k in range(lo, hi + 1):
+            if bool(v == k):
+                return k
+        raise Unsupported(f"{name}: no value in {lo}..{hi}")
+
+
+class _ConcreteChoice:
+    def __init__(self, d):
+        self.d = dict(d)
+
+    def bool(self, name):
+        return bool(self.d.get(name, False))
+
+    def int(self, name, lo, hi):
+        return min(max(int(self.d.get(name, lo)), lo), hi)
+
+
+def _session_run(op, ch, n):
+    """One call of insertData / bulkSave on a real DataInterface whose session factory yields recording sessions over one store.
+
+    Solver-chosen: the type of each of the n rows (a mix of up to three tables), the row whose write fails (or none), the kind of that failure
+    (SQLAlchemyError / foreign exception) and, asked at every commit that is attempted, whether that commit fails.  The store stands for the database:
+    a session's writes are pending until its commit succeeds; rollback, a failed commit and close discard what is pending."""
     from sqlalchemy.exc import SQLAlchemyError
 
-    from resonaate.data.epoch import Epoch
     from resonaate.data.resonaate_database import ResonaateDatabase
 
-    fail_op, fail_sql, fail_commit = choose("fail_op"), choose("fail_is_sqlalchemy_error"), choose("fail_commit")
-    log, sessions = [], []
+    types = [ch.int(f"type_{i}", 0, len(SESSION_TYPES) - 1) for i in range(n)]
+    fail_row = ch.int("fail_row", -1, n - 1)
+    fail_sql = ch.bool("fail_is_sqlalchemy_error") if fail_row >= 0 else None
+    rows = _session_rows(types)
+    log, sessions, store, fired, commits = [], [], [], [], []
     boom = SQLAlchemyError("operation failed") if fail_sql else TypeError("operation failed")
-    boom2 = SQLAlchemyError("commit failed")
+
+    def index_of(x):
+        return next((i for i, r in enumerate(rows) if r is x), -1)
 
     class Session:
-        def _op(self, name, rows):
-            log.append((name, len(list(rows))))
-            if fail_op:
-                raise boom
+        def __init__(self):
+            self.pending, self.closed = [], False
 
-        def add_all(self, rows):
-            self._op("add_all", rows)
+        def _op(self, name, data):
+            data = list(data)
+            log.append((name, len(data)))
+            for x in data:
+                if index_of(x) == fail_row and fail_row >= 0:
+                    fired.append(boom)
+                    raise boom
+                self.pending.append(x)
 
-        def bulk_save_objects(self, rows):
-            self._op("bulk_save_objects", rows)
+        def add_all(self, data):
+            self._op("add_all", data)
+
+        def bulk_save_objects(self, data):
+            self._op("bulk_save_objects", data)
 
         def commit(self):
             log.append("commit")
-            if fail_commit:
-                raise boom2
+            commits.append(1)
+            if ch.bool(f"fail_commit_{len(commits)}"):
+                self.pending = []
+                e = SQLAlchemyError(f"commit {len(commits)} failed")
+                fired.append(e)
+                raise e
+            store.extend(self.pending)
+            self.pending = []
 
         def rollback(self):
             log.append("rollback")
+            self.pending = []
 
         def close(self):
             log.append("close")
+            self.pending, self.closed = [], True
 
     def factory(**kw):
         sessions.append(Session())
@@ -1381,52 +1456,129 @@ def _session_run(op, choose):
 
     db = object.__new__(ResonaateDatabase)
     db.logger, db.session_factory = LOGGER, factory
-    rows = [Epoch(julian_date=2459304.5 + i, timestampISO=f"2021-03-3{i}T00:00:00.000000") for i in range(2)]
     raised, ret = None, None
     try:
         ret = db.bulkSave(rows) if op == "bulkSave" else db.insertData(*rows)
     except BaseException as e:  # noqa: BLE001
         raised = e
-    opname = "bulk_save_objects" if op == "bulkSave" else "add_all"
-    if not fail_op and not fail_commit:
-        want, exc = [(opname, 2), "commit", "close"], None
-    elif fail_op and fail_sql:
-        want, exc = [(opname, 2), "rollback", "close"], boom
-    elif fail_op:
-        want, exc = None, boom  # a foreign exception: nothing committed, session closed last
+    if not fired:
+        cls = "success"
+    elif fired[0] is boom:
+        cls = "operation-sqlalchemy-error" if fail_sql else "operation-foreign-exception"
     else:
-        want, exc = [(opname, 2), "commit", "rollback", "close"], boom2
-    ok = len(sessions) == 1 and raised is exc and (log == want if want is not None else ("commit" not in log and log[-1:] == ["close"] and log[0] == (opname, 2)))
-    if exc is None and op == "bulkSave":
-        ok = ok and ret == 2
-    return ok, {"op": op, "log": [str(x) for x in log], "raised": repr(raised), "sessions": len(sessions), "returned": ret,
-                "fail_op": fail_op, "fail_is_sqlalchemy_error": fail_sql, "fail_commit": fail_commit}
+        cls = "commit-error"
+    # ---- all or nothing (stated over what the store holds after the call and what the caller sees) ----
+    stored = sorted(index_of(x) for x in store)
+    if not fired:
+        atomic = raised is None and stored == list(range(n)) and (op != "bulkSave" or ret == n)
+    else:
+        atomic = raised is not None and any(raised is f for f in fired) and stored == []
+    # ---- the session protocol: one session per call; writes, then commit once; rollback after a SQLAlchemyError; always closed last ----
+    ctl = [x for x in log if isinstance(x, str)]
+    writes = [x for x in log if not isinstance(x, str)]
+    first_ctl = next((i for i, x in enumerate(log) if isinstance(x, str)), len(log))
+    want = {"success": ["commit", "close"], "operation-sqlalchemy-error": ["rollback", "close"], "commit-error": ["commit", "rollback", "close"]}.get(cls)
+    protocol = (len(sessions) == 1 and all(s.closed for s in sessions) and bool(writes) and all(not isinstance(x, str) for x in log[:first_ctl]) and len(writes) == first_ctl
+                and (ctl == want if want is not None else ("commit" not in ctl and ctl[-1:] == ["close"])))
+    if cls == "success":
+        protocol = protocol and sum(k for _n, k in writes) == n
+    detail = {"op": op, "row_types": [SESSION_TYPES[t] for t in types], "fail_row": fail_row, "fail_is_sqlalchemy_error": fail_sql, "failed_commits": [str(f) for f in fired if f is not boom],
+              "class": cls, "log": [str(x) for x in log], "sessions": len(sessions), "raised": repr(raised), "returned": ret,
+              "rows_in_store_after_call": [f"{i}:{SESSION_TYPES[types[i]]}" if i >= 0 else "foreign" for i in stored], "all_or_nothing": bool(atomic), "protocol": bool(protocol)}
+    return bool(atomic), bool(protocol), cls, detail
+
+
+def _session_sqlite(op, types, fail_row):
+    """The same call against a real in-memory SQLite ResonaateDatabase (replay only; possible for a success and for a SQLAlchemyError raised by the write of
+    a row - commit failures and foreign exceptions cannot be provoked there): what the tables hold afterwards."""
+    from sqlalchemy import text
+
+    from resonaate.data.resonaate_database import ResonaateDatabase
+
+    db = ResonaateDatabase("sqlite://", logger=LOGGER)
+    rows = _session_rows(types, poison=fail_row if fail_row >= 0 else None)
+    raised = None
+    try:
+        if op == "bulkSave":
+            db.bulkSave(rows)
+        else:
+            db.insertData(*rows)
+    except Exception as e:  # noqa: BLE001
+        raised = e
+    counts = {}
+    with db.engine.connect() as con:
+        for t in ("truth_ephemerides", "detected_maneuvers", "tasks"):
+            counts[t] = con.execute(text(f"select count(*) from {t}")).scalar()  # noqa: S608
+    total = sum(counts.values())
+    ok = (raised is None and total == len(rows)) if fail_row < 0 else (raised is not None and total == 0)
+    return {"rows_per_table_after_call": counts, "raised": type(raised).__name__ if raised is not None else None, "all_or_nothing": bool(ok)}
 
 
 def replay_session(d):
-    ok, detail = _session_run(d["op"], lambda n: bool(d["choices"].get(n, False)))
-    return not ok, detail
+    ch = d["choices"]
+    n = int(d["n"])
+    atomic, protocol, _cls, detail = _session_run(d["op"], _ConcreteChoice(ch), n)
+    commit_fails = any(bool(v) for k, v in ch.items() if k.startswith("fail_commit_"))
+    fail_row = min(max(int(ch.get("fail_row", -1)), -1), n - 1)
+    if not commit_fails and (fail_row < 0 or ch.get("fail_is_sqlalchemy_error")):
+        try:
+            detail["sqlite"] = _session_sqlite(d["op"], [min(max(int(ch.get(f"type_{i}", 0)), 0), len(SESSION_TYPES) - 1) for i in range(n)], fail_row)
+        except Exception as e:  # noqa: BLE001
+            detail["sqlite"] = f"not available: {type(e).__name__}: {e}"
+    want = d.get("goal")
+    bad = (not atomic) if want == "atomic" else (not protocol) if want == "session" else not (atomic and protocol)
+    return bad, detail
 
 
-def o_session(rep):
+WHAT_ATOMIC = ("for every mix of row types in the list (each of the n rows any of three tables), every row at which the write fails (or none), either kind of failure and a failure of any "
+               "commit that is attempted: after the call the store holds every row of the list exactly once and the call returned (bulkSave: the number of rows), or it holds none of them "
+               "and the injected exception reached the caller - all or nothing per call")
+WHAT_SESSION = ("one session per call; success: writes, one commit, close; SQLAlchemyError in a write or the commit: rollback, close, the same exception re-raised; "
+                "a foreign exception: no commit, close, re-raised")
+
+
+def o_session(rep, n=3):
     from resonaate.data.resonaate_database import ResonaateDatabase
 
+    nt = len(SESSION_TYPES)
+    ty = [z3.Int(f"ch_type_{i}") for i in range(n)]
+    fr = z3.Int("ch_fail_row")
+    dom = [z3.And(t >= 0, t <= nt - 1) for t in ty] + [fr >= -1, fr <= n - 1]
+    names_b = ["fail_is_sqlalchemy_error"] + [f"fail_commit_{k}" for k in range(1, n + 2)]
     for op in ("bulkSave", "insertData"):
-        res = explore(lambda op=op: _session_run(op, lambda n: bool(boolean("ch_" + n))), max_paths=16)
-        kinds = set()
+        res = explore(lambda op=op: _session_run(op, _SymChoice(), n), max_paths=4096, max_depth=64)
+        good = []
         for k, r in enumerate(res):
             if r.exc is not None:
                 rep.error(f"exception[{op}]#{k}", repr(r.exc))
+            else:
+                good.append(r)
+        rep.note(f"[{op}] {len(good)} paths over {n} rows x {nt} types")
+        cond = lambda r: z3.And(*r.constraints)  # noqa: E731
+        # every environment inside the bounds lies on one of the explored paths
+        rep.prove(f"coverage[{op}]", z3.Or(*[cond(r) for r in good]) if good else z3.BoolVal(False), dom,
+                  sample="every combination of row types / failing row / failure kind / failing commit within the bounds lies on an explored path")
+
+        def inputs(m, op=op, goal=None):
+            c = {f"type_{i}": mval(m, ty[i]) for i in range(n)}
+            c["fail_row"] = mval(m, fr)
+            c.update({b: bool(mval(m, z3.Bool("ch_" + b))) for b in names_b})
+            return {"op": op, "n": n, "goal": goal, "choices": c}
+
+        for cls in SESSION_CLASSES:
+            mine = [r for r in good if r.out[2] == cls]
+            if not mine:
+                rep.error(f"reach[{op}:{cls}]", "failure class not reached")
                 continue
-            ok, detail = r.out
-            kinds.add((detail["fail_op"], detail["fail_is_sqlalchemy_error"] if detail["fail_op"] else None, detail["fail_commit"] if not detail["fail_op"] else None))
-            rep.prove(f"session[{op}]#{k}", z3.BoolVal(bool(ok)), r.constraints,
-                      inputs=lambda m, op=op: {"op": op, "choices": {n: bool(mval(m, z3.Bool("ch_" + n))) for n in ("fail_op", "fail_is_sqlalchemy_error", "fail_commit")}},
-                      replay=replay_session,
-                      sample="one session per call; success: operation, commit, close; SQLAlchemyError in the operation or the commit: rollback, close, the same exception re-raised; "
-                             "a foreign exception: no commit, close, re-raised; bulkSave returns the number of rows")
-        if len(kinds) < 4:
-            rep.error(f"reach[{op}]", f"failure classes reached: {sorted(map(str, kinds))}")
+            rep.reachable(f"reach[{op}:{cls}]", dom + [z3.Or(*[cond(r) for r in mine])])
+            rep.prove(f"atomic[{op}:{cls}]", z3.And(*[z3.Implies(cond(r), z3.BoolVal(r.out[0])) for r in mine]), dom,
+                      inputs=lambda m, f=inputs: f(m, goal="atomic"), replay=replay_session, sample=WHAT_ATOMIC)
+            rep.prove(f"session[{op}:{cls}]", z3.And(*[z3.Implies(cond(r), z3.BoolVal(r.out[1])) for r in mine]), dom,
+                      inputs=lambda m, f=inputs: f(m, goal="session"), replay=replay_session, sample=WHAT_SESSION)
+        # vacuity of the mixed-type claim: three different tables in one list, the write failing at a row of another table than the first row's, after rows of two other tables
+        everything = z3.Or(*[cond(r) for r in good]) if good else z3.BoolVal(False)
+        rep.reachable(f"reach[{op}:three-tables-failure-in-the-last]", dom + [everything, ty[0] != ty[1], ty[1] != ty[n - 1], ty[0] != ty[n - 1], fr == n - 1])
+        rep.reachable(f"reach[{op}:interleaved-tables]", dom + [everything, ty[0] == ty[n - 1], ty[0] != ty[1], fr == -1])
     # argument checks of insertData happen before any session is opened
     db = object.__new__(ResonaateDatabase)
     opened = []
@@ -1553,8 +1705,11 @@ BOUNDS = {"start instant": "any whole second 1901-01-01 .. 2099-10-30", "physics
           "agents": "1-2 targets, 0-2 sensors, 0-2 estimates, 0-1 centralized engine (all-visible decision); ids concrete (the real constructors type-check int)",
           "environment outcomes": "per tasking: slew / field of view / visibility / maneuver detected chosen by the solver within the policy stated in POLICIES (quick: 9 combinations over two steps; thorough: all outcomes of the first tasking of each sensor)",
           "imported agents": "start Julian date any double on the 2^-31 d grid; imported Julian date = the clock arithmetic's double for any whole second 0..31 d",
-          "session": "failure of the operation (SQLAlchemyError or foreign exception) or of the commit, chosen by the solver"}
+          "session": "one call of insertData / bulkSave with 3 (quick) / 4 (thorough) rows, each row of any of three tables (TruthEphemeris, DetectedManeuver, Task; every mix and order, "
+                     "chosen by the solver); the write fails at a solver-chosen row (or at none) with a SQLAlchemyError or a foreign exception; every commit that is attempted may fail (solver-chosen)"}
 OUTSIDE = ["SQLAlchemy session semantics and SQLite itself (that commit/rollback are atomic, that a stored double reads back identically, that declared foreign keys are not enforced); the replay audits a real in-memory SQLite database but the proof stops at the objects handed to insertData/bulkSave",
+           "all-or-nothing per call is proved against a store model behind the session factory (see ASSUMPTIONS), for lists of 3/4 rows over three tables; failures between two calls (process killed between the Epoch insert and the bulkSave of one output, which are two transactions in the real code) are not covered; "
+           "the replay repeats the call on a real in-memory SQLite database only for a success and for a write that fails with an IntegrityError (commit failures and foreign exceptions cannot be provoked there)",
            "values read back equal values held: reduced to 'the row handed to bulkSave carries the agent's state vector / covariance / filter source element by element'",
            "agent sets changing through addition/removal events (routing is C01; an agent constructed mid-run takes clock.time like the ones here)",
            "the link between a pre-inserted epoch beyond the unrolled clock constructor (index > 8) and clock.julian_date_epoch: both are ScenarioTime.convertToJulianDate(julian_date_start) of the same whole second, proved for the unrolled indices only",
@@ -1578,11 +1733,13 @@ ASSUMPTIONS = ["datetimeToJulianDate(t) -> a double within 2^-31 d of the exact 
                "in resonaate.scenario.scenario: around/int/float -> double-engine versions, range -> a version that forks over the feasible values of a symbolic step count (<= 10)",
                "every module the run touches is imported before the time classes are shadowed (a first import inside time_env would bind the re-based classes for good)",
                "relaxed rounding |r - e| <= half an ulp of the largest binade (sound over-approximation); exact round-to-nearest-even for the last addition of the imported-state round trip",
-               "cut rule in imported-key: product accuracy and sum accuracy are proved as lemmas from subsets of the path constraints and then used as hypotheses"]
+               "cut rule in imported-key: product accuracy and sum accuracy are proved as lemmas from subsets of the path constraints and then used as hypotheses",
+               "session-scope: session_factory -> recording sessions over one store: rows written through add_all/bulk_save_objects are pending in their session until that session's commit succeeds (then they are in the store); "
+               "rollback, a failed commit and close discard what is pending; a write fails when it reaches the solver-chosen row (rows before it in the same write are pending); rows are identified by object identity"]
 LEVEL_TEXT = ("Bounded symbolic verification of the database-facing behaviour: the real clock constructor, Scenario constructor, propagateTo/stepForward/saveDatabaseOutput, agent/engine bookkeeping and row "
               "constructors run on symbolic IEEE doubles for every start second of 1901-2099, every start step and span, one or two calls and solver-chosen observation/maneuver outcomes; z3 decides per "
               "path that epochs are unique and increasing, that every row carries bit-for-bit the Julian date of an existing epoch, one row per agent per output, every transient row exactly once, one "
-              "bulkSave per output; counterexamples are replayed on the real classes against a real in-memory SQLite database audited with SQL.")
+              "bulkSave per output, and that one insertData/bulkSave call stores all rows of a mixed-type list or none whatever row or commit fails; counterexamples are replayed on the real classes against a real in-memory SQLite database audited with SQL.")
 LEVEL_NOTE = ("Steps per call bounded (2/3), clock constructor unrolled (3/8 epochs), agent ids concrete, numerics/geometry/ray are environment stubs, storage layer trusted; datetimeToJulianDate cut to its C05 contract.")
 
 REPLAYS = {}
@@ -1602,7 +1759,8 @@ def _solve_hint(rep):
 
 def obligations(tier):
     quick = tier == "quick"
-    obs = [Ob("session-scope", o_session, "DataInterface session scope: commit once / rollback and re-raise / always close, for insertData and bulkSave", 120),
+    obs = [Ob("session-scope", lambda rep: o_session(rep, SESSION_ROWS[tier]),
+              "DataInterface session scope, insertData and bulkSave on a list mixing rows of up to three tables: all rows or none per call; one session, commit once / rollback and re-raise / always close", 300),
            Ob("imported-key", o_imported, "imported agents: the ephemeris row carries exactly the imported Julian date (bit-exact)", 300),
            Ob("enclosure", _solve_hint, "the static enclosure given to the double engine follows from the accuracy assumption", 60)]
     REPLAYS["session-scope"] = replay_session
